@@ -17,7 +17,7 @@ ID = "C10"
 LEVEL = "exploration"
 RULE = ("scenario = URL assembled from scheme x host form (name, IPv4, bracketed IPv6) x port (none, 80, 443, other) x "
         "path x query, options host / origin / suppress_origin / subprotocols / cookie / connection (as value and as full line) / header (list; dict incl. None "
-        "values) / connection, 1..3 successive connections, the server optionally setting a cookie for the host on each of them (clean, quoted, or carrying CR / NUL / VT / DEL: such a response may be refused, the character must never reach a request).  Expected values are known by construction.  Oracle = "
+        "values) / connection, 1..3 successive connections (also the reconnects of one WebSocketApp.run_forever, with the header option given as a callable), the server optionally setting a cookie for the host on each of them (clean, quoted, or carrying CR / NUL / VT / DEL: such a response may be refused, the character must never reach a request).  Expected values are known by construction.  Oracle = "
         "reference HTTP parser on the bytes the peer received before its first reply (one GET, CRLF line ends, one "
         "terminating empty line, nothing after; Host rule; Upgrade, Connection, Version 13; key = base64 of the 16 "
         "bytes drawn at the randomness seam during this connect, fresh per connection; option headers exactly as "
@@ -53,6 +53,8 @@ def plan(tier, seed):
     per = 250 if tier == "quick" else 2500
     for s in range(0, n, per):
         items.append({"kind": "rand", "start": s, "count": per})
+    items.append({"kind": "app", "exhaustive": "WebSocketApp.run_forever(reconnect=1): 1..3 connections lost right after the upgrade x header option "
+                  "{callable -> list, callable -> dict with a None value, static list} x {no other option, cookie, subprotocols}"})
     return items
 
 
@@ -72,6 +74,11 @@ def expand(item, seed):
                     for q in (None, "a=1"):
                         yield {"scheme": item["scheme"], "host": host, "port": port, "path": path, "query": q, "opts": {},
                                "conns": 1, "seed": 1}
+    elif item["kind"] == "app":
+        for losses in (1, 2, 3):
+            for form in ("list", "dict", "static"):
+                for o in ({}, {"cookie": "sid=abc123"}, {"subprotocols": ["chat", "superchat"]}):
+                    yield {"app_reconnect": losses, "header_form": form, "opts": o, "seed": 1}
     else:
         for i in range(item["start"], item["start"] + item["count"]):
             yield gen(random.Random(derive_seed(seed, ID, i)))
@@ -123,7 +130,104 @@ def gen(rng):
     return sc
 
 
+def _run_app(sc, choices):
+    """WebSocketApp with reconnect: every opening request of the run - the reconnects' too - reflects the options; a `header`
+    given as a callable is asked for each connection."""
+    res = Result()
+    try:
+        losses = int(sc["app_reconnect"])
+        form = sc.get("header_form", "list")
+        if not 1 <= losses <= 3 or form not in ("list", "dict", "static"):
+            raise InvalidScenario("app_reconnect")
+        opts = dict(sc.get("opts", {}))
+        if set(opts) - {"cookie", "subprotocols"}:
+            raise InvalidScenario("app options")
+    except (KeyError, TypeError, ValueError) as e:
+        raise InvalidScenario(str(e))
+    w = World(seed=int(sc.get("seed", 1)), step_cap=900_000)
+    peers = []
+
+    def fac(conn):
+        # the server drops the first `losses` connections right after the upgrade, then stays
+        cfg_ = {"response": {"mode": "std", "then": "eof"}} if len(peers) < losses else {}
+        p = WSPeer(w, cfg_)
+        peers.append(p)
+        return p
+
+    w.net.add_host("srv.sim.test", [(_rs.AF_INET, "10.3.0.1")])
+    w.net.listen("10.3.0.1", 80, fac)
+    calls = []
+
+    def factory():
+        calls.append(len(calls) + 1)
+        tok = f"one-shot-{len(calls)}"
+        return {"X-Auth-Token": tok, "X-None": None} if form == "dict" else [f"X-Auth-Token: {tok}"]
+
+    opened = []
+    errors = []
+    outcome = None
+    with w:
+        ws = w.ws
+
+        def on_open(a):
+            opened.append(w.k.now)
+            if len(opened) > losses:
+                a.close()
+
+        kw = {}
+        if opts.get("cookie"):
+            kw["cookie"] = opts["cookie"]
+        if opts.get("subprotocols"):
+            kw["subprotocols"] = list(opts["subprotocols"])
+        app = ws.WebSocketApp("ws://srv.sim.test/feed", header=(["X-Auth-Token: fixed"] if form == "static" else factory),
+                              on_open=on_open, on_reconnect=on_open, on_error=lambda a, e: errors.append(exc_name(e)), **kw)
+        try:
+            app.run_forever(reconnect=1)
+            outcome = "returned"
+        except SimAbort:
+            outcome = "abort: " + str(w.k.abort_reason)
+        except BaseException as e:  # noqa
+            outcome = "raised " + exc_name(e)
+    res.absorb(w)
+    ctx = "websocketapp_reconnect/" + form
+    if outcome != "returned" or len(peers) != losses + 1:
+        res.violate("connect_failed_against_correct_server", ctx, f"run {outcome}; {len(peers)} connections for {losses} losses; errors {errors}")
+    else:
+        seen = []
+        for i, p in enumerate(peers):
+            if p.request is None or p.request_error or p.request["problems"]:
+                res.violate("request_syntax", ctx, f"connection #{i}: {p.request_error or (p.request or {}).get('problems')}")
+                break
+            tv = R.header_values(p.request, "X-Auth-Token")
+            want_fixed = ["fixed"] if form == "static" else None
+            if len(tv) != 1 or (want_fixed and tv != want_fixed) or (not want_fixed and (tv[0] in seen or not tv[0].startswith("one-shot-"))):
+                res.violate("header_option_not_reflected", ctx, f"connection #{i}: X-Auth-Token {tv}, earlier connections carried {seen} "
+                            f"(the header option was asked {len(calls)} times for {len(peers)} connections)")
+                break
+            seen.append(tv[0])
+            if R.header_values(p.request, "X-None"):
+                res.violate("header_option_not_reflected", ctx, f"connection #{i}: header with value None was sent")
+                break
+            ck = R.header_values(p.request, "Cookie")
+            if (opts.get("cookie") and ck != [opts["cookie"]]) or (not opts.get("cookie") and ck):
+                res.violate("cookie_not_reflected", ctx, f"connection #{i}: Cookie {ck}")
+                break
+            sp = [t.strip() for v in R.header_values(p.request, "Sec-WebSocket-Protocol") for t in v.split(",")]
+            if sp != list(opts.get("subprotocols") or []):
+                res.violate("subprotocols_not_reflected", ctx, f"connection #{i}: Sec-WebSocket-Protocol {sp}")
+                break
+        keys = [p.key for p in peers]
+        if not res.violations and len(set(keys)) != len(keys):
+            res.violate("key_not_fresh", ctx, f"same Sec-WebSocket-Key on successive connections: {keys}")
+    res.sig = repr(("app", losses, form, tuple(sorted(opts))))
+    res.nontrivial = True
+    res.probes["reconnect_request_checked"] = 1
+    return res
+
+
 def run(sc, choices=None):
+    if sc.get("app_reconnect"):
+        return _run_app(sc, choices)
     res = Result()
     try:
         scheme = sc["scheme"]
@@ -394,4 +498,6 @@ def _check_request(p, sc, url, eff_port, draws, idx):
 
 
 def sample_view(sc, r):
+    if sc.get("app_reconnect"):
+        return dict(sc)
     return {"url": build_url(sc), "opts": sc.get("opts"), "connections": sc.get("conns"), "redirect": sc.get("redirect")}
